@@ -26,15 +26,18 @@ type GenOpts struct {
 	SortedRows bool
 	// GapDays lets dates fall on days whose local midnight does not exist in the agency zone (callers must compare through ReconcileGaps).
 	GapDays bool
+	// StopChains adds (one time in three) a three-level chain station <- platform <- boarding area, the station with a
+	// wheelchair value, the levels below it with blank or own values: what reaches the third level is the platform's, never the station's.
+	StopChains bool
 }
 
 func DefaultGenOpts() GenOpts {
-	return GenOpts{MaxAgencies: 3, MaxRoutes: 4, MaxStops: 8, MaxTransfers: 3, MaxServices: 4, MaxShapes: 3, MaxPoints: 5, MaxTrips: 4, MaxStopTimes: 5, MaxFreq: 2}
+	return GenOpts{MaxAgencies: 3, MaxRoutes: 4, MaxStops: 8, MaxTransfers: 3, MaxServices: 4, MaxShapes: 3, MaxPoints: 5, MaxTrips: 4, MaxStopTimes: 5, MaxFreq: 2, StopChains: true}
 }
 
 // LargeGenOpts is used by the thorough tier.
 func LargeGenOpts() GenOpts {
-	return GenOpts{MaxAgencies: 6, MaxRoutes: 12, MaxStops: 40, MaxTransfers: 10, MaxServices: 10, MaxShapes: 6, MaxPoints: 20, MaxTrips: 20, MaxStopTimes: 25, MaxFreq: 4}
+	return GenOpts{MaxAgencies: 6, MaxRoutes: 12, MaxStops: 40, MaxTransfers: 10, MaxServices: 10, MaxShapes: 6, MaxPoints: 20, MaxTrips: 20, MaxStopTimes: 25, MaxFreq: 4, StopChains: true}
 }
 
 var idShapes = []string{"%s%d", "%s%d", "%s_%d", "%s %d", "%s%d ", " %s%d", "%s,%d", "%s\"%d", "%s\n%d", "é%s%d", "%s%d漢", "%.0s%d", "%.0s0%d", "%s#%d", "%s%dN", "#%s%d", ";%s%d", "//%s%d"}
@@ -301,6 +304,24 @@ func GenFeed(t *rapid.T, o GenOpts) (*Feed, GenInfo) {
 			}
 		}
 		f.Stops = append(f.Stops, s)
+	}
+	if o.StopChains && rapid.IntRange(0, 2).Draw(t, "stopChain") == 0 {
+		st := Stop{ID: pool.draw(t, "chainStation", "s", o.PlainIDs), Name: "Chain station", LocType: 1, Wheelchair: rapid.SampledFrom([]int{1, 2}).Draw(t, "chainStationWheelchair")}
+		pl := Stop{ID: pool.draw(t, "chainPlatform", "s", o.PlainIDs), Name: "Chain platform", LocType: genEnum(t, "chainPlatformType", []int{0}, explicit), Parent: st.ID,
+			Wheelchair: rapid.SampledFrom([]int{-1, -1, 0, 1, 2}).Draw(t, "chainPlatformWheelchair")}
+		ba := Stop{ID: pool.draw(t, "chainBoarding", "s", o.PlainIDs), Name: "Chain boarding area", LocType: 4, Parent: pl.ID,
+			Wheelchair: rapid.SampledFrom([]int{-1, -1, 0, 1}).Draw(t, "chainBoardingWheelchair")}
+		if explicit {
+			// explicit-defaults feeds spell "unspecified" as 0
+			if pl.Wheelchair < 0 {
+				pl.Wheelchair = 0
+			}
+			if ba.Wheelchair < 0 {
+				ba.Wheelchair = 0
+			}
+		}
+		f.Stops = append(f.Stops, st, pl, ba)
+		nS += 3
 	}
 	if nS > 1 {
 		perm := rapid.Permutation(seq(nS)).Draw(t, "stopOrder")
